@@ -1,5 +1,5 @@
-// Forcing TU for ikos::linear_expression / linear_constraint / linear_constraint_system
-// (include/crab/types/linear_constraints.hpp).  No logic of its own: the real header, a trivial indexable
+// Forcing TU for ikos::linear_expression / linear_constraint (include/crab/types/linear_constraints.hpp;
+// linear_constraint_system is NOT instantiated: its std::vector / unordered_set / unordered_map code is not covered).  No logic of its own: the real header, a trivial indexable
 // variable name VN (vn.h), explicit instantiations of the real class templates for Number = z_number and
 // one-line shims that only force the instantiation of function / member templates nothing else names.
 // The contracts (contracts.c) are stated on the REAL mangled instantiations, not on the shims.
@@ -10,11 +10,21 @@ typedef ikos::z_number Z;
 typedef crab::variable<Z, VN> VAR;
 typedef ikos::linear_expression<Z, VN> LE;
 typedef ikos::linear_constraint<Z, VN> LC;
-typedef ikos::linear_constraint_system<Z, VN> LS;
-typedef std::map<VAR, VAR> RMAP;
+// opaque renaming map for the member template linear_expression::rename<RenamingMap>: only what rename uses
+// (find, end, dereference to a pair whose `second` is the new variable); find / end are DECLARED only, the verifier
+// gives them an uninterpreted meaning (units/lincst/lemodel.c)
+struct RM {
+  typedef std::pair<const VAR, VAR> value_type;
+  typedef const value_type *const_iterator;
+  const_iterator find(const VAR &v) const;
+  const_iterator end() const;
+};
 template class ikos::linear_expression<Z, VN>;
 template class ikos::linear_constraint<Z, VN>;
 extern "C" {
 // forces linear_constraint_impl::strict_to_non_strict_inequality<VN> (the z_number overload)
 void lincst_force_s2ns(LC *r, const LC *c) { new (r) LC(ikos::linear_constraint_impl::strict_to_non_strict_inequality(*c)); }
+// forces linear_expression::rename<RM> and linear_constraint::rename<RM>
+void lincst_force_rename(LE *r, const LE *e, const RM *m) { new (r) LE(e->rename(*m)); }
+void lincst_force_rename_c(LC *r, const LC *c, const RM *m) { new (r) LC(c->rename(*m)); }
 }
